@@ -1,5 +1,9 @@
 (* Extraction of the hand-written executable model (T-cor for C11). ExtrOcamlBasic only. *)
 From Coq Require Import ZArith List Extraction ExtrOcamlBasic.
-From C11 Require GrowModel.
+From MomoCommon Require Import GenPrelude.
+From C11 Require GrowModel Gen_PolicyBase Gen_PolicyOpen2N2 Gen_PolicyOpen8 Gen_IndexBase Gen_IndexOpen2N2 Gen_IndexOpen8 Gen_Buckets.
 Separate Extraction GrowModel.cfg_step GrowModel.cfg_init GrowModel.cfg_shape GrowModel.cfg_find GrowModel.cfg_traverse
-  GrowModel.gens GrowModel.count GrowModel.capacity.
+  GrowModel.gens GrowModel.count GrowModel.capacity
+  Gen_PolicyBase.CalcCapacity Gen_PolicyBase.GetBucketCountShift Gen_PolicyOpen2N2.CalcCapacity Gen_PolicyOpen2N2.GetBucketCountShift
+  Gen_PolicyOpen8.CalcCapacity Gen_PolicyOpen8.GetBucketCountShift Gen_IndexBase.GetStartBucketIndex Gen_IndexBase.GetNextBucketIndex
+  Gen_IndexOpen2N2.GetNextBucketIndex Gen_IndexOpen8.GetNextBucketIndex Gen_Buckets.GetCount.
